@@ -1063,7 +1063,10 @@ def isfixedtupletype(obj: type) -> compat.TypeIs[type[tuple]]:
     """
     a = args(obj)
     origin = tp.get_origin(obj)
-    if not a or a[-1] is ...:
+    if a and a[-1] is ...:
+        return False
+    # `tuple[()]` is the fixed tuple with no members; a bare `tuple` has no fixed shape.
+    if not a and not issubscriptedgeneric(obj):
         return False
     return _safe_issubclass(origin, tuple)
 
